@@ -1,0 +1,24 @@
+//go:build verif
+
+package px
+
+// Verification hook (build tag `verif` only, add-only): the structured result of the type mismatch
+// describer, so that the verification harness can compare it with its formal model without
+// parsing message texts. Nothing here is compiled without the tag.
+
+// VerifPathElem is one element of a mismatch path: the kind of the element ("" for the subject,
+// "entry", "key of entry", "index", "variant", ...) and its key.
+type VerifPathElem struct {
+	Kind string `json:"kind"`
+	Key  string `json:"key"`
+}
+
+// VerifMismatch is the class and the path of one mismatch.
+type VerifMismatch struct {
+	Class string          `json:"class"`
+	Path  []VerifPathElem `json:"path"`
+}
+
+// VerifDescribe returns what DescribeMismatch(name, expected, actual) formats: the list of mismatches
+// found by the describer. It is set by the package that implements the describer.
+var VerifDescribe func(name string, expected, actual Type) []VerifMismatch
